@@ -869,6 +869,9 @@ def run(run):
     ob_structure(run, mir, rp)
     ob_assign_ops(run, mir, rp)
     ob_parser_table(run, mir, rp)
+    # expressions interpolated into strings are expressions: they must come out with their Mamba meaning (`{a ^ 2}` is a power)
+    from props import C02
+    C02.ob_interpolation(run, mir, rp, "meaning")
     # grouping is meaning: the printer's parenthesisation decision (the C10 obligations) is part of this property too
     try:
         from props import C10
